@@ -1,13 +1,39 @@
 #!/bin/bash
 # usage: check.sh <property id> [quick|thorough]
 # Builds the checker if needed and decides the property on /repo's current tree.
+# thorough = quick + positive controls (tools/poscontrols.sh): every stored seeded change that this property's
+# rules are known to report is applied to a scratch copy of the current tree and must be reported again.
 set -u
 cd "$(dirname "$0")"
 export GOFLAGS=-mod=mod GOPROXY=off GOSUMDB=off GOTOOLCHAIN=local
 unset GOWORK
 PROP="$1"; TIER="${2:-${VERIF_TIER:-quick}}"
+REPO="${BXH_REPO:-/repo}"
 if [ ! -x bin/bxhlint ] || [ -n "$(find checker -name '*.go' -newer bin/bxhlint 2>/dev/null | head -1)" ]; then
   mkdir -p bin
   (cd checker && go build -o ../bin/bxhlint ./cmd/bxhlint) || { echo "cannot build checker"; exit 2; }
 fi
-exec ./bin/bxhlint -repo "${BXH_REPO:-/repo}" -verif "$(pwd)" -prop "$PROP" -tier "$TIER"
+if [ "$TIER" != "thorough" ]; then
+  exec ./bin/bxhlint -repo "$REPO" -verif "$(pwd)" -prop "$PROP" -tier "$TIER"
+fi
+./bin/bxhlint -repo "$REPO" -verif "$(pwd)" -prop "$PROP" -tier thorough; rc=$?
+[ $rc -ne 0 ] && exit $rc
+res=$(tools/poscontrols.sh "$PROP" "$REPO" | tail -1); prc=$?
+echo "positive controls: $res"
+# record the controls in the evidence file of this run
+python3 - "$PROP" "$res" <<'PY'
+import json, sys
+p = "evidence/%s.json" % sys.argv[1]
+ev = json.load(open(p))
+try:
+    ctl = json.loads(sys.argv[2])
+except Exception:
+    ctl = {"error": sys.argv[2][:300]}
+ev.setdefault("coverage", {})["positive_controls"] = ctl
+json.dump(ev, open(p, "w"), indent=1)
+PY
+if ! echo "$res" | grep -q '"failed": \[\]'; then
+  echo "BROKEN-CHECK property=$PROP a stored seeded change that the rules of this property reported before is no longer reported (see positive controls above): the analysis may be passing vacuously"
+  exit 2
+fi
+exit 0
